@@ -2,6 +2,7 @@ import Chess.Lemmas.Reach
 import Chess.Lemmas.SpecSums
 import Chess.Lemmas.FnsEquiv.GameState
 import Chess.Lemmas.FnsEquiv.Piece
+import Chess.Lemmas.FnsEquiv.Hash
 
 /-!
 # C05 — different positions get different hashes
@@ -72,3 +73,7 @@ theorem named after the function. -/
 #print axioms Chess.FnsEquiv.Piece_as_index_eq
 #print axioms Chess.FnsEquiv.PieceType_discr_eq
 #print axioms Chess.FnsEquiv.Player_discr_eq
+
+/-! Second batch of translated functions (C05.T2): the key lookups themselves: which key a state byte and a piece on a square read. -/
+#print axioms Chess.FnsEquiv.GameState_hash_eq
+#print axioms Chess.FnsEquiv.Piece_hash_eq
